@@ -91,6 +91,9 @@ type triggerSpec struct {
 	RPCSig string
 	RPCOcc int
 	Op     histOp
+	// AfterOthers: the event waits until every other request in flight (the step's other partitions) has been
+	// answered, so it lands between the answers of two partitions rather than wherever the scheduler puts it
+	AfterOthers bool
 }
 
 type stepRec struct {
@@ -259,7 +262,16 @@ func (ps *pipeScenario) run(c *vk.Case, o runOpts) *pipeRun {
 		if t := o.Trigger; t != nil && t.Step == stepIdx && t.RPCSig == sig && t.RPCOcc == k && !run.TriggerHit {
 			run.TriggerHit = true
 			op := t.Op
-			act.Before = func() { applyChainOp(chain, op) }
+			after := t.AfterOthers
+			act.Before = func() {
+				if after {
+					time.Sleep(2 * time.Millisecond) // let the step's other partition requests arrive
+					for i := 0; i < 1000 && node.Inflight() > 1; i++ {
+						time.Sleep(200 * time.Microsecond)
+					}
+				}
+				applyChainOp(chain, op)
+			}
 		}
 		for fi, f := range allFaults {
 			if f == nil || hit[fi] || f.SQLOrd >= 0 || f.Step != stepIdx || f.RPCSig != sig || f.RPCOcc != k {
@@ -271,12 +283,16 @@ func (ps *pipeScenario) run(c *vk.Case, o runOpts) *pipeRun {
 			switch f.Kind {
 			case "rpc-error":
 				act.Fail = simnode.FailRPCError
+			case "rpc-error-last":
+				act.Fail, act.ElemErr = simnode.FailRPCError, len(info.Calls)-1
 			case "http":
 				act.Fail, act.Status = simnode.FailHTTP, 500
 			case "cut":
 				act.Fail = simnode.FailCut
 			case "truncate":
 				act.Fail = simnode.FailTruncate
+			case "break-parent":
+				act.Rewrite = breakParent
 			case "crash":
 				act.Fail = simnode.FailCut
 				crashNow, killedAll = true, true
